@@ -183,6 +183,38 @@ void good_single(size_t n) { void *b = global_hooks.allocate(n); if (b != NULL) 
 void bad_OWN4_dangling(printbuffer * const p) { p->hooks.deallocate(p->buffer); p->length = 0; }
 void good_cleared(printbuffer * const p) { p->hooks.deallocate(p->buffer); p->length = 0; p->buffer = NULL; }
 
+/* DBL1 */
+void bad_DBL1_merged_failure(printbuffer * const p, size_t n)
+{
+    unsigned char *nb = (unsigned char*)p->hooks.allocate(n);
+    if (nb != NULL) { memcpy(nb, p->buffer, p->offset + 1); }
+    p->hooks.deallocate(p->buffer);
+    if (nb == NULL) { p->hooks.deallocate(p->buffer); p->length = 0; p->buffer = NULL; return; }
+    p->length = n; p->buffer = nb;
+}
+void good_dbl_exclusive(printbuffer * const p, int a)
+{
+    if (a) { p->hooks.deallocate(p->buffer); }
+    p->length = 0;
+    if (!a) { p->hooks.deallocate(p->buffer); }
+    p->buffer = NULL;
+}
+void bad_DBL1_realloc_then_free(printbuffer * const p, size_t n)
+{
+    unsigned char *nb = (unsigned char*)p->hooks.reallocate(p->buffer, n);
+    if (nb != NULL) { p->hooks.deallocate(p->buffer); }
+    p->buffer = nb;
+}
+void good_realloc_failed(printbuffer * const p, size_t n)
+{
+    unsigned char *nb = (unsigned char*)p->hooks.reallocate(p->buffer, n);
+    if (nb == NULL) { p->hooks.deallocate(p->buffer); p->length = 0; p->buffer = NULL; return; }
+    p->length = n; p->buffer = nb;
+}
+static void drop_node(cJSON *x) { if (x->string != NULL) { x->string = NULL; } global_hooks.deallocate(x); }
+void bad_DBL1_helper(cJSON *item) { drop_node(item); cJSON_free(item); }
+void good_helper_loop(cJSON *item) { while (item != NULL) { cJSON *next = item->next; drop_node(item); item = next; } }
+
 /* TAB17 */
 static unsigned parse_hex4(const unsigned char * const input) { return (input[0] == 'f') ? 15u : 0u; }
 static unsigned char utf16_literal_to_utf8(const unsigned char * const in, const unsigned char * const end, unsigned char **out)
